@@ -37,9 +37,11 @@ structure SyCase where
   i : SyncIn
   h : Hashing
   plan : List Fault
+  claims : Bool := false     -- claims mode (20th field): judged by the monitors only
 
 def parseSyCase (line : String) : Option SyCase :=
-  match line.splitOn "|" with
+  let fs := line.splitOn "|"
+  match fs.take 19 with
   | [paused, selOk, r, sl, pol, strat, ru, del, gen, stored, cc, lim, tmpl, fuid, fdel, store, pods, names, faults] =>
     let ruv : Option (Option Int) := if ru == "none" then none else if ru == "nil" then some none else some (some ru.toInt!)
     let stratV : StratType := if strat == "R" then .rolling else if strat == "D" then .onDelete else .other
@@ -78,7 +80,7 @@ def parseSyCase (line : String) : Option SyCase :=
       match t.splitOn "@" with
       | [k, occ, kind] => some { key := k, occ := occ.toNat!, kind := parseKind kind }
       | _ => none
-    some { i := i, h := h, plan := plan }
+    some { i := i, h := h, plan := plan, claims := fs.length == 20 }
   | _ => none
 
 def showRevD (d : RevD) : String :=
@@ -195,6 +197,8 @@ def stepSync (cas obs : String) : String :=
     let ccS := match o.status, o.cc with | some _, some n => toString n | _, _ => "-"
     let model := s!"log={",".intercalate ob.log} status={stS} cc={ccS} revs={";".intercalate (ob.revs.map showRevD)} out={ob.out} mut=0 creates={",".intercalate ((o.acts.take (if o.outcome == .ok || o.log.isEmpty then o.acts.length else o.acts.length)).filterMap (fun a => match a with | .create od rv => some s!"{canonicalName c.i.setName od}@{rv}" | _ => none))} stvar=0 tplbad=0"
     let obs' := match obs.splitOn " site=" with | o :: _ => o | [] => obs
+    -- claims mode: the sync model has no claim templates; the case is judged by the monitors on the real code only
+    if c.claims then s!"{obs'}\t{monitorSync c obs'}\tclaims" else
     s!"{model}\t{monitorSync c obs'}\t{syTag c o}"
 
 end Asts.Driver
